@@ -395,6 +395,43 @@ def run_segments(k):
     return out
 
 
+def run_churn(k):
+    """Thread churn (drivers/churndrv.c) on the ASan+UBSan build: threads that come
+    and go while others start; every stream must hold exactly its own thread's
+    tagged events."""
+    chk = _CTX["chk"]
+    rng = chk.rng(k, "churn")
+    rounds, grp, nev = rng.randint(150, 300), rng.randint(2, 8), rng.choice([3, 40, 200])
+    wd = os.path.join(chk.scratch, "churn-%d-%d" % (os.getpid(), k))
+    shutil.rmtree(wd, ignore_errors=True)
+    os.makedirs(wd)
+    out = {"i": k, "kind": "churn", "viol": None, "inconclusive": None, "events": 0, "markers": 0, "bytes": 0,
+           "feat": set(), "shortwrites": 0, "aborted_on_fault": 0}
+    env = {"OVNI_TRACEDIR": os.path.join(wd, "trace")}
+    if k % 2:
+        env["OVNI_TMPDIR"] = os.path.join(wd, "tmp")
+    try:
+        r = core.run_retry([_CTX["churn"], str(rounds), str(grp), str(nev)] + (["overlap"] if k % 4 >= 2 else []),
+                           env=env, cwd=wd, timeout=300)
+        if r.timeout:
+            out["inconclusive"] = "churn driver timed out"; return out
+        if r.sanitizer:
+            out["viol"] = ("sanitizer:%s:%s" % (core.sanitizer_kind(r.err), core.first_repo_frame(r.err)),
+                           "sanitizer report while threads come and go", r.brief()); return out
+        if r.rc != 0 or "CHURN-DONE" not in r.out:
+            out["viol"] = ("driver-died:churn", "library terminated a program whose threads come and go: rc=%s sig=%s %s"
+                           % (r.rc, r.sig, r.err.strip().split("\n")[-1][:200]), r.brief()); return out
+        n, v = rt.churn_check(env["OVNI_TRACEDIR"], nev)
+        out["events"] = n * nev
+        if v:
+            out["viol"] = (v[0], v[1], {"rounds": rounds, "group": grp, "events": nev})
+        elif n != rounds * (grp + 1):
+            out["viol"] = ("churn:stream-count", "%d streams for %d threads" % (n, rounds * (grp + 1)), {})
+        return out
+    finally:
+        shutil.rmtree(wd, ignore_errors=True)
+
+
 def run_multiproc(k):
     """Several processes (as MPI ranks on one or more nodes do) write into the
     same trace directory at the same time: same pid on different looms, or
@@ -477,7 +514,10 @@ def main(argv):
     chk = core.Check("C01", "exploration", argv)
     b = chk.build("asan", ["ovni"])
     drv = rt.build_rtdrv(chk, b)
-    _CTX.update(chk=chk, drv=drv)
+    churn = os.path.join(chk.scratch, "churndrv")
+    chk.cc(churn, [os.path.join(core.VERIF, "drivers", "churndrv.c")], b,
+           extra=["-L", b.libdir, "-lovni", "-lpthread", "-Wl,-rpath," + b.libdir])
+    _CTX.update(chk=chk, drv=drv, churn=churn)
     if chk.replay:
         import json
         rp = json.load(open(chk.replay))
@@ -519,6 +559,15 @@ def main(argv):
                 key, what, obsv = out["viol"]
                 chk.report(key, what, {"multiproc": out["i"], "layout": out["layout"], "observation": obsv})
     if not chk.replay:
+        for out in core.pmap(run_churn, list(range(24 if chk.tier == "quick" else 300)), jobs=max(2, core.NCPU // 4)):
+            if out["inconclusive"]:
+                chk.note_inconclusive(out["inconclusive"]); continue
+            evaluated += 1
+            kinds[out["kind"]] = kinds.get(out["kind"], 0) + 1
+            tot["events"] += out["events"]
+            if out["viol"]:
+                key, what, obsv = out["viol"]
+                chk.report(key, what, {"churn": out["i"], "observation": obsv})
         allseg = list(range(len(segment_scripts())))
         for out in core.pmap(run_segments, allseg):
             if out["inconclusive"]:
@@ -556,7 +605,7 @@ def main(argv):
         "rule": "op scripts (boundary sweep / op soup / dense autoflush / multi-thread / short-write / EINTR / no stdin; 2-3 "
                 "processes writing into one trace directory at once with equal pids on different looms or equal tids in "
                 "different processes; every sequence of 1-3 flush-separated segments of one operation kind each (events, jumbos, "
-                "marks, nothing); streams padded to an exact multiple of 512 B .. 1 MiB) run on the "
+                "marks, nothing); rounds of threads that come and go while others start (churndrv); streams padded to an exact multiple of 512 B .. 1 MiB) run on the "
                 "ASan+UBSan libovni; a case counts when the driver finished and every stream was decoded and compared "
                 "with the emit log. distinct_nontrivial = distinct (normal|jumbo, payload size) classes seen in decoded "
                 "streams + flush-marker class + distinct boundary distances delta (MAX - fill level) generated",
